@@ -799,6 +799,11 @@ class ModelMixin2:
                 return [(self.exc('ZeroDivisionError', st, node), st)]
             except TypeError:
                 return [(self.exc('TypeError', st, node, 'unsupported operand types'), st)]
+        if isinstance(l, Ref) and l.kind == 'obj':
+            dunder = {'Add': '__add__', 'Sub': '__sub__', 'Mult': '__mul__'}.get(opn)
+            fi = self.prog.classes[st.get(l.sym).cls].find(dunder) if dunder else None
+            if fi is not None:
+                return self.call_function(fi, [r], {}, st, node, self_val=l)
         if isinstance(l, NoneV) or isinstance(r, NoneV):
             which = self.describe(l if isinstance(l, NoneV) else r, st)
             return [(self.exc('TypeError', st, node, f'unsupported operand type(s) for {opn}: NoneType ({which})'), st)]
